@@ -35,6 +35,8 @@ pub struct Shape {
     pub closures: usize,
     pub ops2: usize,
     pub allow_missing: bool,
+    /// keep the witness satisfying by construction: multiply() inputs never mention the half-open gate's unassigned wires
+    pub sure: bool,
 }
 
 struct Mirror<F: PrimeField> {
@@ -101,6 +103,15 @@ fn rand_coeff<F: PrimeField>(rng: &mut ChaChaRng, nch: usize) -> Sx<F> {
     }
 }
 
+/// multiply() evaluates its inputs at call time: a wire of the half-open gate that is assigned later must not occur
+fn avoid_pending<F: PrimeField>(m: &Mirror<F>, lc: &mut Lcx<F>) {
+    if let Some(p) = m.pending {
+        for t in lc.iter_mut() {
+            if t.0 == V::Right(p) || t.0 == V::Out(p) { t.0 = V::One; }
+        }
+    }
+}
+
 fn rand_lc<F: PrimeField>(m: &Mirror<F>, rng: &mut ChaChaRng, nch: usize) -> Lcx<F> {
     let k = rng.gen_range(0..4);
     (0..k).map(|_| (m.pick_var(rng), rand_coeff(rng, nch))).collect()
@@ -138,8 +149,13 @@ pub fn gen_program<F: PrimeField>(rng: &mut ChaChaRng, sh: &Shape) -> GenProg<F>
         let choose_commit = commits_left > 0 && rng.gen_range(0..remaining) < commits_left;
         if choose_commit {
             commits_left -= 1;
-            let v: F = edge_scalar(rng);
-            let vb: F = F::rand(rng);
+            // now and then the very same opening is committed a second time (a bit-identical commitment is a
+            // legitimate statement: the two occurrences are distinct variables)
+            let dup = prog.iter().rev().find_map(|o| if let COp::Commit(v, vb) = o { Some((*v, *vb)) } else { None });
+            let (v, vb): (F, F) = match dup {
+                Some(d) if rng.gen_range(0..6) == 0 => d,
+                _ => (edge_scalar(rng), F::rand(rng)),
+            };
             m.v.push(Sx::C(v));
             prog.push(COp::Commit(v, vb));
             continue;
@@ -154,8 +170,9 @@ pub fn gen_program<F: PrimeField>(rng: &mut ChaChaRng, sh: &Shape) -> GenProg<F>
         }
         match rng.gen_range(0..100) {
             0..=19 => {
-                let l = rand_lc(&m, rng, 0);
-                let r = rand_lc(&m, rng, 0);
+                let mut l = rand_lc(&m, rng, 0);
+                let mut r = rand_lc(&m, rng, 0);
+                if sh.sure { avoid_pending(&m, &mut l); avoid_pending(&m, &mut r); }
                 let lv = m.eval(&l);
                 let rv = m.eval(&r);
                 m.l.push(simp(lv.clone(), false));
@@ -244,8 +261,9 @@ pub fn gen_program<F: PrimeField>(rng: &mut ChaChaRng, sh: &Shape) -> GenProg<F>
                     nch += 1;
                 }
                 20..=34 => {
-                    let l = rand_lc(&m, rng, nch);
-                    let r = rand_lc(&m, rng, nch);
+                    let mut l = rand_lc(&m, rng, nch);
+                    let mut r = rand_lc(&m, rng, nch);
+                    if sh.sure { avoid_pending(&m, &mut l); avoid_pending(&m, &mut r); }
                     let lv = m.eval(&l);
                     let rv = m.eval(&r);
                     m.l.push(lv.clone());
